@@ -256,17 +256,21 @@ CHECKS["C03"] = {
             "may pass and all insertion sequences: vertex_to_simplices and simplices agree and every simplex is dim+1 distinct "
             "in-range vertices in every reachable state; add_point reports exactly the simplices it removed and created (interior "
             "and hull-extension path); every ValueError branch leaves the triangulation unchanged; no KeyError/IndexError; plus the "
-            "algebraic core of 'the pieces tile the simplex' (signed and unsigned volume split, dimension 2 and 3). The geometric "
-            "half (facets in <= 2 simplices, every vertex used, volumes add up to the hull volume, Delaunay) is a visible statement "
-            "tiles_hull_statement that is NOT proved (only its index clause: tiles_hull_partial); it is audited exactly on the real "
-            "object after every insertion, where it fails on degenerate/anisotropic inputs (known findings). Tie: exact lock-step of "
+            "algebraic core of 'the pieces tile the simplex' (signed and unsigned volume split, dimension 2 and 3). Of the geometric "
+            "half, CONSERVATION OF VOLUME by the cavity retriangulation is proved in dimension 2 and 3 (interior cancellation over the "
+            "removed simplices, added = hole faces ++ [pt] for the model, added volume = removed volume) under three explicit "
+            "hypotheses about truthful geometry (opposite sides of shared facets, star-shaped cavity, non-degenerate removed simplices); "
+            "the rest (facets in <= 2 simplices, every vertex used, hull extension, Delaunay) stays the visible, unproved "
+            "tiles_hull_statement (index clause: tiles_hull_partial); all of it is audited exactly on the real object after every "
+            "insertion, where it fails on degenerate/anisotropic inputs (known findings). Tie: exact lock-step of "
             "simplices, vertex_to_simplices and add_point's return value with every predicate call recorded and consumed.",
     "design_ref": "DESIGN.md section 6 C03",
     "note": "Trusted: Lean kernel, standard axioms, hand model Tri.lean tied by differential testing (dims 2-4; random / lattice / "
             "centroid-midpoint / co-spherical / near-degenerate point sets; with and without hint; diagonal metrics up to ratio 100); "
             "SciPy's initial Delaunay and, for the 3-D/4-D hull volume, ConvexHull facets accepted only after an exact check; the "
             "tiling itself is tested exactly, not proved. Findings: relative eps of point_in_cicumcircle, holes left by skipped "
-            "slivers, cancellation in fast_2d_point_in_simplex (see known_findings.json).",
+            "slivers, duplicates located in a foreign simplex within eps (see known_findings.json); repaired: cancellation in "
+            "fast_2d_point_in_simplex and in the N-D circumsphere for point sets far from the origin.",
     "technique": T,
 }
 CHECKS["C04"] = {
